@@ -71,6 +71,16 @@ def fm(a, b=None):
     return a
 
 
+def fr(a, b=None):
+    """re-keys its first argument in place (same size, same values) and hands the very same object back"""
+    if isinstance(a, dict) and a:
+        first = next(iter(a))
+        a[b] = a.pop(first)
+    elif isinstance(a, list) and a:
+        a[0] = b
+    return a
+
+
 def gm(a):
     """yields the very same object before and after changing it in place"""
     yield a
@@ -187,6 +197,10 @@ def perform(M, rt, call, truth):
         b = args[1] if len(args) > 1 else None
         note("a", a0), note("b", b)            # as they were when the call started
         out = M.fm(a0, b)
+    elif f == "fr":
+        b = args[1] if len(args) > 1 else None
+        note("a", a0), note("b", b)            # as they were when the call started
+        out = M.fr(a0, b)
     elif f == "gm":
         note("a", a0)
         g, out = M.gm(a0), None
@@ -274,6 +288,8 @@ def run_sound_case(case):
                 perform(M, rt, call, truth)
         out, err = io.StringIO(), io.StringIO()
         glob = ["--disable-type-rewriting"] if case["flag"] == "--disable-type-rewriting" else []
+        if case["flag"].startswith("--limit"):
+            glob = case["flag"].split()
         sub = [case["flag"]] if case["flag"] and not glob else []
         argv = ["-c", "mtp_config:CONFIG"] + glob + ["stub", "mtp_target"] + sub
         crashed = "NONE"
@@ -490,6 +506,18 @@ def gen_sound(tier, seed, env_text):
                  [mk_call("f0", [C("dict", P(Sx("a"), dk("x", "y")), P(Sx("z"), A("int"))), A("NoneType")], A("int"))]]
     add("equally named positions in several functions / a field named like its parameter, different record shapes",
         same_name, [2, 3], ["NONE", "DEFAULT"], [""])
+    # a rare value recorded early, then the usual one many more times than the query limit (the number of DISTINCT traces
+    # stays far below the limit: every one of them must reach the stub)
+    many = []
+    for f, pos in (("f1", 0), ("K.m", 0), ("f0", 1)):
+        for rare, usual in ((Sx("id"), A("int")), (A("NoneType"), C("list", A("int"))), (C("dict"), C("dict", P(Sx("a"), A("int"))))):
+            def one(v, f=f, pos=pos):
+                args = [v] if f != "f0" else ([A("int"), v] if pos == 1 else [v, A("int")])
+                return {"f": f, "args": args, "ret": v, "ys": []}
+            many.append([one(rare)] + [one(usual) for _ in range(70)])
+            many.append([one(usual) for _ in range(35)] + [one(rare)] + [one(usual) for _ in range(35)])
+    add("a rare value once, the usual one 70 times, query limit 50 / 5 (distinct traces: 2)", many, [0], ["NONE", "DEFAULT"],
+        ["--limit 50", "--limit 5"])
     # string keys that cannot be written as a field of a class-syntax TypedDict
     odd = [[mk_call(f, [dk("content-type", "a")], dk("class"))] for f in ("f1", "K.m")] + \
           [[mk_call("f1", [C("list", dk("1abc"), dk("a"))], dk("a b", "b"))], [mk_call("f0", [dk("a"), dk("")], C("list", dk("def", "x-y")))]]
@@ -498,6 +526,11 @@ def gen_sound(tier, seed, env_text):
     # the very same object is an argument and the return / yield value, changed in place in between
     inplace = [[mk2("fm", dk("x"), A("int"))], [mk2("fm", dk("x", "y"), A("NoneType"))], [mk2("fm", dk("x", "y"), Sx("z"))],
                [mk2("fm", C("list", dk("a")), dk("b"))], [mk2("fm", C("list", dk("a")), A("int")), mk2("fm", dk("x"), A("NoneType"))],
+               # re-keyed in place: same object, same size, same values - another key (a non-string one, another string)
+               [mk2("fr", dk("timeout", "retries"), A("int"))], [mk2("fr", dk("timeout", "retries"), Sx("tries"))],
+               [mk2("fr", dk("x"), A("NoneType"))], [mk2("fr", C("list", dk("x")), dk("y", "z"))],
+               [mk2("fr", C("dict", P(A("int"), A("int"))), Sx("k"))],
+               [mk2("fr", dk("p", "q"), A("int")), mk2("fr", dk("p", "q"), Sx("r"))],
                [{"f": "gm", "args": [dk("x", "y")], "ret": A("NoneType"), "ys": []}],
                [{"f": "gm", "args": [C("list", dk("x"))], "ret": A("NoneType"), "ys": []}]]
     add("the same object as argument and as return / yield value, changed in place in between", inplace, [0, 2, 3], ["NONE", "DEFAULT"], [""])
